@@ -93,7 +93,9 @@ CLAIMED = {
 
 # sentences added to a claim after its first version (rules added later); appended to the claim text
 EXTRA = {
-    "C03": "Also decided: the next-step constructor that takes an end time differs from the one that does not in nothing but m_end_time (the last state of a schedule is built without one).",
+    "C03": "Also decided: the next-step constructor that takes an end time differs from the one that does not in nothing but m_end_time (the last state of a schedule is built without one); where an update method installs a new value only if it compares different (Well::update*, Group::updateProduction, GuideRateConfig::update_model), the operator== of that class compares every data member.",
+    "C12": "Also decided: in Box.cpp every declaration, default look-up, range assertion and extent/offset assignment stays on one axis (i/NX/I*/[0], j/NY/J*/[1], k/NZ/K*/[2]).",
+    "C16": "Also decided: in Math.hpp a result that starts as a copy of an Evaluation argument and has its value replaced also has its derivatives rewritten slot by slot, cleared, or is assigned a scalar.",
     "C06": "Also decided: every connection selector of Well.cpp (WPIMULT, WELOPEN, COMPLUMP, WINJCLN, ...) compares the connection's I/J/K/completion number with the record item of that name, lower bounds with match_ge and upper bounds with match_le.",
     "C11": "Also decided: a process-local pointer that the owner's serializeOp re-binds after unpacking (Well::unit_system in Schedule::serializeOp) is re-bound in every instance - the call sits in range-for loops over the whole containers.",
 }
